@@ -31,6 +31,18 @@ class SubSubLeaf(SubLeaf):
 
 
 @dataclass(eq=False)
+class UnmappedMiddle(SubLeaf):
+    """deliberately NOT part of the mapped classes: DeepLeaf's DAO has to attach to SubLeaf's DAO through it"""
+
+    hidden: int = 1
+
+
+@dataclass(eq=False)
+class DeepLeaf(UnmappedMiddle):
+    d: int = 2
+
+
+@dataclass(eq=False)
 class Vec:
     """has an alternative mapping (VecMapped)"""
 
@@ -82,5 +94,5 @@ class Rich:
     owner: Optional[Node] = None
 
 
-CLASSES = [Leaf, SubLeaf, SubSubLeaf, Vec, Node, SubNode, Rich]
+CLASSES = [Leaf, SubLeaf, SubSubLeaf, DeepLeaf, Vec, Node, SubNode, Rich]
 ALTERNATIVE_MAPPINGS = [VecMapped]
